@@ -88,6 +88,9 @@ func (u *Unit) frameGoals(items []frameItem, k string, now Term) (goals []Term, 
 	}
 	if strings.HasPrefix(k, "$") {
 		name := k[strings.Index(k, ":")+1:]
+		if i := strings.Index(name, "#"); i >= 0 {
+			name = name[:i]
+		}
 		for _, it := range items {
 			if it.ghost == name {
 				return nil, true
